@@ -157,6 +157,39 @@ BARE_SITES = [
     ('DragModel.length', 'length', lambda pbc, x: pbc.DragModel(0.3, pbc.TableG7, 150, 0.3, x), lambda o: o.length),
     ('Sight.scale_factor', 'distance', lambda pbc, x: pbc.Sight('FFP', x, pbc.Unit.Mil(0.1), pbc.Unit.Mil(0.1)), lambda o: o.scale_factor),
     ('Sight.h_click_size', 'adjustment', lambda pbc, x: pbc.Sight('FFP', None, x, pbc.Unit.Mil(0.1)), lambda o: o.h_click_size),
+    ('Ammo.get_velocity_for_temp', 'temperature',
+     lambda pbc, x: pbc.Ammo(pbc.DragModel(0.3, pbc.TableG7), pbc.Unit.MPS(800), pbc.Unit.Celsius(15), 0.02, True).get_velocity_for_temp(x), lambda o: o),
+]
+
+
+def _rows(hit):
+    return [float(v) if not hasattr(v, 'raw_value') else v.raw_value for r in hit for v in r]
+
+
+def _std_shot(pbc):
+    U = pbc.Unit
+    dm = pbc.DragModel(0.3, pbc.TableG7, U.Grain(168), U.Inch(0.308), U.Inch(1.2))
+    return pbc.Shot(pbc.Weapon(U.Inch(2), U.Inch(11)), pbc.Ammo(dm, U.MPS(800)), winds=[pbc.Wind(U.MPS(3), U.Degree(90))])
+
+
+# bare numbers as CALL arguments: run(pbc, q) where q(slot, x) is either the bare x or PreferredUnits.<slot>(x); values are
+# (range, step) factors chosen per site - incl. a step beyond the range and numbers that are large when read as inches
+CALL_SITES = [
+    ('Calculator.fire(range, step)', lambda pbc, q, a, b: _rows(pbc.Calculator().fire(_std_shot(pbc), q('distance', a), q('distance', b)))),
+    ('Calculator.fire(range=Quantity, step)', lambda pbc, q, a, b: _rows(pbc.Calculator().fire(_std_shot(pbc), pbc.PreferredUnits.distance(a), q('distance', b)))),
+    ('Calculator.set_weapon_zero(distance)', lambda pbc, q, a, b: [pbc.Calculator().set_weapon_zero(_std_shot(pbc), q('distance', a)).raw_value]),
+    ('Calculator.barrel_elevation_for_target(distance)', lambda pbc, q, a, b: [pbc.Calculator().barrel_elevation_for_target(_std_shot(pbc), q('distance', a)).raw_value]),
+    ('HitResult.danger_space(at_range, height)',
+     lambda pbc, q, a, b: (lambda ds: [ds.begin.distance.raw_value, ds.end.distance.raw_value])(
+         pbc.Calculator().fire(_std_shot(pbc), pbc.Unit.Meter(500), pbc.Unit.Meter(10)).danger_space(q('distance', a), q('target_height', b)))),
+    # (drop and windage are typed Angular there - quantities only; the target distance accepts a bare number)
+    ('Sight.get_adjustment(target_distance)',
+     lambda pbc, q, a, b: (lambda r: [r.vertical, r.horizontal])(
+         pbc.Sight('SFP', pbc.Unit.Meter(100), pbc.Unit.Mil(0.1), pbc.Unit.Mil(0.1)).get_adjustment(q('distance', a), pbc.Unit.Mil(b), pbc.Unit.Mil(b / 2), 4.0))),
+    ('Atmo.icao(altitude)', lambda pbc, q, a, b: [pbc.Atmo.icao(q('distance', a))._t0, pbc.Atmo.icao(q('distance', a))._p0]),
+    ('BCPoint(V)', lambda pbc, q, a, b: [pbc.BCPoint(0.3, V=q('velocity', a)).Mach]),
+    ('Ammo.calc_powder_sens(v, t)', lambda pbc, q, a, b: [pbc.Ammo(pbc.DragModel(0.3, pbc.TableG7), pbc.Unit.MPS(800), pbc.Unit.Celsius(15)).calc_powder_sens(
+        q('velocity', a), q('temperature', b))]),
 ]
 
 
@@ -206,6 +239,30 @@ def search(chk, broken):
                         key = f'bare-not-preferred:{name}' + (':zero' if x == 0 else '')
                         chk.failures.append(Failure(key, f'{name}={x!r} (bare, preferred unit {unit.name}) gives {a!r} but the explicit quantity {unit.name}({x!r}) gives {b!r}',
                                                     {'op': 'bare', 'site': name, 'x': x, 'unit': unit.name}))
+        # 2b. bare numbers as call arguments (range, step, zero distance, danger-space arguments, sight arguments, ...)
+        for _ in range(2 if (chk.tier == 'quick' and not broken) else 30):
+            random_prefs(pbc, rng)
+            # keep the ranges shootable: a preferred distance unit up to a metre (sub-inch units included on purpose)
+            pbc.PreferredUnits.distance = rng.choice([U.Yard, U.Meter, U.Foot, U.Centimeter, U.Inch, U.Millimeter, U.Line])
+            for name, run in CALL_SITES:
+                if chk.over():
+                    break
+                for a, b in ((100.0, 10.0), (120.0, 300.0), (150.0, 246.06), (rng.uniform(50, 400), rng.uniform(1, 900)), (400.0, 0.5)):
+                    outs = []
+                    for mode in ('bare', 'explicit'):
+                        q = (lambda slot, x: x) if mode == 'bare' else (lambda slot, x: getattr(pbc.PreferredUnits, slot)(x))
+                        try:
+                            outs.append([f2b(float(v)) for v in run(pbc, q, a, b)])
+                        except Exception as e:  # noqa
+                            outs.append(type(e).__name__)
+                    evals += 1
+                    if outs[0] != outs[1]:
+                        prefs = {f: getattr(pbc.PreferredUnits, f).name for f in SLOT_DIM}
+                        chk.failures.append(Failure(f'bare-call-argument:{name}', f'{name} with bare numbers ({a!r}, {b!r}) differs from the same call with the explicit '
+                                                                                   f'quantities PreferredUnits.<slot>(x) under {prefs}',
+                                                    {'op': 'bare-call', 'site': name, 'a': a, 'b': b, 'prefs': prefs,
+                                                     'bare': str(outs[0])[:200], 'explicit': str(outs[1])[:200]}))
+                        break
         # known open finding: BCPoint(V=0) is rejected while BCPoint(V=Unit(0)) is accepted
         pbc.PreferredUnits.defaults()
         try:
